@@ -993,7 +993,9 @@ pub struct Multi<T> {
     pub so: Option<T>,
 }
 
-const MULTI_ELEMS: [&str; 8] = ["@Multi/item[0]/item[*]/", "@Multi/hm:/*:/", "@Multi/ho:/", "@av/item[*]/", "@ao/", "sv:/item[*]/", "sm:/*:/", "so:/"];
+// (a one-element Vec in attribute position may be flattened: the attribute body is the element)
+const MULTI_ELEMS: [&str; 10] =
+    ["@Multi/item[0]/item[*]/", "@Multi/item[0]/", "@Multi/hm:/*:/", "@Multi/ho:/", "@av/item[*]/", "@av/", "@ao/", "sv:/item[*]/", "sm:/*:/", "so:/"];
 
 impl<T: Battery> Multi<T> {
     fn empty() -> Self {
